@@ -8,6 +8,8 @@ import Nsq.Model.ToFileDisc
 import Nsq.Model.ToFileMain
 import Nsq.Model.ToNsqLoop   -- relay sub-builder (C20 round 6): to_nsq main loop
 import Nsq.Model.RelayOpts   -- relay sub-builder (C20 round 6): option surface of nsq_to_http / nsq_to_nsq
+import Nsq.Model.RelayRedirect   -- tools2 (audit round 7, C3): nsq_to_http through the http.Client of main()
+import Nsq.Model.RelayAudit7 -- C20 audit round 7 (sub-builder c20b): n2n histories, to_nsq refusal, GET endpoint
 /-! Driver for engine E8 (tools): one operation per input line, one canonical answer line out.
 
 `tf …`  nsq_to_file router model (stateful: conf / pre / events / tree)
@@ -19,6 +21,8 @@ import Nsq.Model.RelayOpts   -- relay sub-builder (C20 round 6): option surface 
 `td …`  nsq_to_file TopicDiscoverer (stateful: new / upd / tick-err / hup / term)
 `lp …`  to_nsq main loop (throttle / EOF / Stop) under a given schedule      [relay block]
 `opt …` relay option surface: hdr / req / args / pass / wl / topic / hmark / nmark [relay block]
+`rd …`  nsq_to_http wire level: one message through HandleMessage + http.Client (redirects)  [tools2 block]
+`a7 …`  C20 audit round 7: n2n-hist / refuse / get                                  [audit7-b block]
 -/
 open Nsq Nsq.Line
 
@@ -48,10 +52,17 @@ def filesLine (fs : FS) (full : Bool) : String :=
     | some f => some (render p ++ (if full then "=" ++ hex f.data else ":" ++ toString f.data.length))
   ",".intercalate (sortStr items)
 
+/-- where the coming event is hit (audit C30.1): the harness names the primitive by what it can observe on the real
+code — "the first primitive of the event", "the n-th Finish", "the first primitive after the FIN batch" — and the
+driver resolves that to an index of the schedule `io : Nat → Fault` by running the model itself -/
+inductive FSel | first | fin (n : Nat) | afterFins | sync | move
+deriving Repr
+
 structure D where
-  cfg : Cfg := ⟨false, 0, 0, false, false, 1, true, false⟩
+  cfg : Cfg := ⟨false, 0, 0, false, false, 1, true, false, false, false⟩
   st : St := init FS.empty
   nfin : Nat := 0
+  fault : Option (Fault × FSel) := none
   disc : Nsq.Model.ToFileDisc.D := {}
 
 def stateLine (d : D) : String × D :=
@@ -62,6 +73,62 @@ def stateLine (d : D) : String × D :=
 
 def noFault : Nat → Fault := fun _ => .ok
 
+def ioAt (t : Nat) (k : Fault) : Nat → Fault := fun i => if i = t then k else .ok
+
+def newFins (st0 s : St) : Nat := s.finished.length - st0.finished.length
+
+/-- `kill` at index t freezes the state right before primitive t: scanning t = t0, t0+1, … walks through the
+primitives of the event. Result: the last t whose frozen state has exactly `n - 1` new FINs, i.e. the index of the
+n-th Finish (if the event has one). -/
+def scanFin (f : (Nat → Fault) → St) (st0 : St) (n : Nat) : Nat → Nat → Option Nat → Option Nat
+  | 0, _, last => last
+  | fuel + 1, t, last =>
+    let s := f (ioAt t .kill)
+    if s.status ≠ .killed then last
+    else if newFins st0 s ≥ n then last
+    else scanFin f st0 n fuel (t + 1) (if newFins st0 s + 1 = n then some t else last)
+
+/-- the first primitive index at which all `total` FINs of the event are done and something is still to come -/
+def scanAfter (f : (Nat → Fault) → St) (st0 : St) (total : Nat) : Nat → Nat → Option Nat
+  | 0, _ => none
+  | fuel + 1, t =>
+    let s := f (ioAt t .kill)
+    if s.status ≠ .killed then none
+    else if newFins st0 s = total then some t
+    else scanAfter f st0 total fuel (t + 1)
+
+/-- the first primitive index whose frozen state satisfies `p` -/
+def scanP (f : (Nat → Fault) → St) (p : St → Bool) : Nat → Nat → Option Nat
+  | 0, _ => none
+  | fuel + 1, t =>
+    let s := f (ioAt t .kill)
+    if s.status ≠ .killed then none
+    else if p s then some t
+    else scanP f p fuel (t + 1)
+
+def resolve (f : (Nat → Fault) → St) (st0 : St) : FSel → Option Nat
+  -- `Sync()` of the sync block of a `msg` event: the record is written (the message sits in `output[]`), nothing finished yet
+  | .sync => scanP f (fun s => decide (s.pending.length > st0.pending.length) && newFins st0 s == 0) 4096 st0.tick
+  -- the link that starts the work-dir → output-dir move in `Close()`: the descriptor was open and is closed now
+  | .move => if st0.hasOut ∧ ¬ st0.outOpen then none
+             else scanP f (fun s => s.hasOut && !s.outOpen) 4096 st0.tick
+  | .first => if (f (ioAt st0.tick .kill)).status = .killed then some st0.tick else none
+  | .fin n =>
+    if n = 0 ∨ newFins st0 (f noFault) < n then none else scanFin f st0 n 4096 st0.tick none
+  | .afterFins =>
+    let total := newFins st0 (f noFault)
+    if total = 0 then none else scanAfter f st0 total 4096 st0.tick
+
+/-- run the event list (one router iteration, or two for `termstop`) under the pending fault, if any -/
+def runEv (d : D) (evs : List (Ev × Bool)) : St × String :=
+  let f := fun io => run d.cfg io d.st evs
+  match d.fault with
+  | none => (f noFault, "")
+  | some (k, sel) =>
+    match resolve f d.st sel with
+    | none => (f noFault, "")            -- the event has no such primitive: nothing was injected
+    | some t => (f (ioAt t k), "")
+
 def b01 (s : String) : Option Bool := if s = "1" then some true else if s = "0" then some false else none
 
 def strOfHex (s : String) : Option String := (unhex s).map bytesToString
@@ -71,13 +138,26 @@ def tfStep (d : D) (ws : List String) : String × D :=
   | ["conf", gz, rs, ri, wd, se, mif, hr] =>
     match b01 gz, rs.toNat?, ri.toInt?, b01 wd, b01 se, mif.toNat?, b01 hr with
     | some gz, some rs, some ri, some wd, some se, some mif, some hr =>
-      ("ok", { d with cfg := ⟨gz, rs, ri, wd, se, mif, hr, false⟩, st := init FS.empty, nfin := 0 })
+      ("ok", { d with cfg := ⟨gz, rs, ri, wd, se, mif, hr, false, false, false⟩, st := init FS.empty, nfin := 0 })
     | _, _, _, _, _, _, _ => ("bad-op", d)
   | ["conf", gz, rs, ri, wd, se, mif, hr, cc] =>   -- cc: Close() clears f.out after a successful move (fix F44), probed on the real code
     match b01 gz, rs.toNat?, ri.toInt?, b01 wd, b01 se, mif.toNat?, b01 hr, b01 cc with
     | some gz, some rs, some ri, some wd, some se, some mif, some hr, some cc =>
-      ("ok", { d with cfg := ⟨gz, rs, ri, wd, se, mif, hr, cc⟩, st := init FS.empty, nfin := 0 })
+      ("ok", { d with cfg := ⟨gz, rs, ri, wd, se, mif, hr, cc, false, false⟩, st := init FS.empty, nfin := 0 })
     | _, _, _, _, _, _, _, _ => ("bad-op", d)
+  -- ---- c19a block (audit 7 C5/C4): ow = the router writes body+"\n" with one Write (fix F46), sl = updateFile seals a
+  -- torn tail before appending (fix F47); both probed on the real code (harness/e8/tofile_lines_test.go)
+  | ["conf", gz, rs, ri, wd, se, mif, hr, cc, ow, sl] =>
+    match b01 gz, rs.toNat?, ri.toInt?, b01 wd, b01 se, mif.toNat?, b01 hr, b01 cc, b01 ow, b01 sl with
+    | some gz, some rs, some ri, some wd, some se, some mif, some hr, some cc, some ow, some sl =>
+      ("ok", { d with cfg := ⟨gz, rs, ri, wd, se, mif, hr, cc, ow, sl⟩, st := init FS.empty, nfin := 0 })
+    | _, _, _, _, _, _, _, _, _, _ => ("bad-op", d)
+  | ["extapp", dir, tmpl, rev, data] =>   -- another O_APPEND writer of the same plain file appends `data` with one write(2)
+    match strOfHex tmpl, rev.toNat?, unhex data with
+    | some tmpl, some rev, some data =>
+      stateLine { d with st := step d.cfg noFault d.st (.extAppend ⟨dir = "o", tmpl, rev⟩ data) false }
+    | _, _, _ => ("bad-op", d)
+  -- ---- end of c19a block ----
   | ["pre", dir, tmpl, rev, data] =>
     match strOfHex tmpl, rev.toNat?, unhex data with
     | some tmpl, some rev, some data =>
@@ -87,21 +167,31 @@ def tfStep (d : D) (ws : List String) : String × D :=
   | ["msg", id, body, now, fn, starved] =>
     match id.toNat?, unhex body, now.toInt?, strOfHex fn, b01 starved with
     | some id, some body, some now, some fn, some sv =>
-      stateLine { d with st := step d.cfg noFault d.st (.msg ⟨id, body⟩ now fn) sv }
+      stateLine { d with st := (runEv d [(.msg ⟨id, body⟩ now fn, sv)]).1, fault := none }
     | _, _, _, _, _ => ("bad-op", d)
   | ["tick", now, fn] =>
     match now.toInt?, strOfHex fn with
-    | some now, some fn => stateLine { d with st := step d.cfg noFault d.st (.tick now fn) false }
+    | some now, some fn => stateLine { d with st := (runEv d [(.tick now fn, false)]).1, fault := none }
     | _, _ => ("bad-op", d)
   | ["ext", dir, tmpl, rev, data] =>
     match strOfHex tmpl, rev.toNat?, unhex data with
     | some tmpl, some rev, some data =>
       stateLine { d with st := step d.cfg noFault d.st (.ext ⟨dir = "o", tmpl, rev⟩ data) false }
     | _, _, _ => ("bad-op", d)
-  | ["hup"] => stateLine { d with st := step d.cfg noFault d.st .hup false }
-  | ["term"] => stateLine { d with st := step d.cfg noFault d.st .term false }
-  | ["stopped"] => stateLine { d with st := step d.cfg noFault d.st .stopped false }
-  | ["termstop"] => stateLine { d with st := step d.cfg noFault (step d.cfg noFault d.st .term false) .stopped false }
+  | ["hup"] => stateLine { d with st := (runEv d [(.hup, false)]).1, fault := none }
+  | ["term"] => stateLine { d with st := (runEv d [(.term, false)]).1, fault := none }
+  | ["stopped"] => stateLine { d with st := (runEv d [(.stopped, false)]).1, fault := none }
+  | ["termstop"] => stateLine { d with st := (runEv d [(.term, false), (.stopped, false)]).1, fault := none }
+  | ["fault", "kill", "fin", n] =>
+    match n.toNat? with
+    | some n => ("ok", { d with fault := some (.kill, .fin n) })
+    | none => ("bad-op", d)
+  | ["fault", "kill", "sync"] => ("ok", { d with fault := some (.kill, .sync) })
+  | ["fault", "kill", "move"] => ("ok", { d with fault := some (.kill, .move) })
+  | ["fault", "err", "first"] => ("ok", { d with fault := some (.err, .first) })
+  | ["fault", "kill", "first"] => ("ok", { d with fault := some (.kill, .first) })
+  | ["fault", "err", "afterfins"] => ("ok", { d with fault := some (.err, .afterFins) })
+  | ["fault", "kill", "afterfins"] => ("ok", { d with fault := some (.kill, .afterFins) })
   | ["tree"] => (s!"st={statusName d.st.status} tree={filesLine d.st.fs true}", d)
   | _ => ("bad-op", d)
 
@@ -122,6 +212,12 @@ def stepLine (d : E8.D) (line : String) : String × E8.D :=
   | "lp" :: ws => (Nsq.Model.ToNsqLoop.driverLine ws, d)
   | "opt" :: ws => (Nsq.Model.RelayOpts.driverLine ws, d)
   -- ---- end of relay block ----
+  -- ---- tools2 block (audit round 7, C3) ----
+  | "rd" :: _ => (Nsq.Model.RelayRedirect.driverLine (words line), d)
+  -- ---- end of tools2 block ----
+  -- ---- audit7-b block (C20 audit round 7, sub-builder c20b) ----
+  | "a7" :: ws => (Nsq.Model.RelayAudit7.driverLine ws, d)
+  -- ---- end of audit7-b block ----
   | _ => ("bad-op", d)
 
 partial def loop (h : IO.FS.Stream) (out : IO.FS.Stream) (d : E8.D) : IO Unit := do
